@@ -105,6 +105,10 @@ pub fn universe_nrd(sc: &uni::Scratch) -> Tree {
 			// fan coinbase 1 out into ten plain outputs for the NRD transactions
 			spec.txs = vec![uni::spend_coinbase(&kc, 1, REWARD, &[(300, 10 * M), (301, 10 * M), (302, 10 * M), (303, 10 * M), (304, 10 * M), (305, 10 * M), (306, 10 * M), (307, 10 * M), (308, 10 * M), (309, REWARD - 91 * M)], 70)];
 		}
+		if h == 6 {
+			// a second fan-out (coinbase 2) for the later instances
+			spec.txs = vec![uni::spend_coinbase(&kc, 2, REWARD, &[(320, 10 * M), (321, 10 * M), (322, 10 * M), (323, REWARD - 31 * M)], 71)];
+		}
 		let i = tb.add(&format!("n{}", h), prev, &spec);
 		prev = Some(i);
 		idx.push(i);
@@ -126,7 +130,11 @@ pub fn universe_nrd(sc: &uni::Scratch) -> Tree {
 	// third instance of r = 2 at 13 (one block after the second): too recent again
 	tb.add_invalid("x:nrd2-dup-at-13", Some(n12), &BlockSpec::with(191, vec![nrd(2, 302, 312)]));
 	let n13 = tb.add("n13", Some(n12), &BlockSpec::with(13, vec![nrd(3, 304, 314)]));
-	let _n14 = tb.add("n14", Some(n13), &BlockSpec::with(14, vec![nrd(2, 302, 312)]));
+	let n14 = tb.add("n14", Some(n13), &BlockSpec::with(14, vec![nrd(2, 302, 312)]));
+	// a fourth instance of the r = 2 excess (the index keeps a linked list per excess: head, middles, tail), so
+	// that a block on n12 - which rewinds the two newest instances at once - is judged against the right one
+	let n15 = tb.add("n15", Some(n14), &BlockSpec::empty(15));
+	let _n16 = tb.add("n16", Some(n15), &BlockSpec::with(16, vec![nrd(2, 320, 330)]));
 	// other fork from n9: the r = 2 duplicate one block after the fork point is fine there (no instance on
 	// this fork); r = 3 and r = 1 have their first instance at the same height as on the main chain
 	let h10 = tb.add("h10", Some(n9), &BlockSpec::with(110, vec![nrd(3, 303, 313), nrd(1, 305, 315)]));
